@@ -14,7 +14,7 @@ Import ListNotations.
    and leaves the evaluator in that history's final state *)
 Theorem C11_serializable : forall (S O R : Type) (run : S -> O -> S * R) (s : S) (objs : list O) (sch : list nat) (w : world S O R),
   exec_schedule S O R run (init_world S O R s objs) sch = Some w -> all_done S O R w = true ->
-  Permutation (order S O R w) (seq 0 (length objs)) /\
+  Permutation (order S O R w) (seq 0 (List.length objs)) /\
   shared S O R w = fst (sequential S O R run s objs (order S O R w)) /\
   forall i r, In (i, r) (snd (sequential S O R run s objs (order S O R w))) ->
               nth_error (results S O R w) i = Some (Some r).
@@ -23,14 +23,14 @@ Proof. exact SchedProofs.serializable. Qed.
 (* at every moment at most one goroutine is inside the critical section *)
 Theorem C11_mutual_exclusion : forall (S O R : Type) (run : S -> O -> S * R) (s : S) (objs : list O) (sch : list nat) (w : world S O R),
   exec_schedule S O R run (init_world S O R s objs) sch = Some w ->
-  (length (filter (fun t => match tpc O R t with PLocked => true | _ => false end) (threads S O R w)) <= 1)%nat.
+  (List.length (filter (fun t => match tpc O R t with PLocked => true | _ => false end) (threads S O R w)) <= 1)%nat.
 Proof. exact SchedProofs.mutual_exclusion. Qed.
 
 (* a script that updates a persistent variable on each run never loses an update *)
 Theorem C11_no_lost_update : forall (objs : list unit) (sch : list nat) (w : world nat unit nat) (n0 : nat),
   exec_schedule nat unit nat (fun n _ => (Datatypes.S n, n)) (init_world nat unit nat n0 objs) sch = Some w ->
   all_done nat unit nat w = true ->
-  shared nat unit nat w = (n0 + length objs)%nat.
+  shared nat unit nat w = (n0 + List.length objs)%nat.
 Proof. exact SchedProofs.no_lost_update. Qed.
 
 (* the theorem applies to the evaluator model: Run is one such atomic run function *)
